@@ -209,10 +209,12 @@ namespace
                     {
                         // decoy construction (other K kind and value, other exponents), one
                         // erosion step with it, then the setters
+                        // decoy slope exponent: non-linear where the graph allows it
+                        const double n_decoy = multi ? 1.0 : (p.n == 2.0 ? 0.5 : 2.0);
                         if (p.k_array)
-                            er = std::make_unique<fs::spl_eroder<FG>>(fg, 2 * p.k + 0.5, p.m + 0.25, 1.0, p.tol);
+                            er = std::make_unique<fs::spl_eroder<FG>>(fg, 2 * p.k + 0.5, p.m + 0.25, n_decoy, p.tol);
                         else
-                            er = std::make_unique<fs::spl_eroder<FG>>(fg, karr, p.m + 0.25, 1.0, p.tol);
+                            er = std::make_unique<fs::spl_eroder<FG>>(fg, karr, p.m + 0.25, n_decoy, p.tol);
                         {
                             arr_t h0 = make_field(grid, s.out), a0 = make_field(grid, std::vector<double>(n, 1.0));
                             (void) er->erode(h0, a0, 0.5);
